@@ -239,10 +239,85 @@ class Twice:
             pass
         except Exception as e:
             R.violation(f"{what}: raised {type(e).__name__} instead of refusing the name collision: {e}", dict(source=src))
+    # the clash is refused also once the first owner of the name has been met several times
+    src2 = src + '''
+@dataclass
+class Late:
+    a: A
+    a2: List[A]
+    a3: Optional[A]
+    b: B
+'''
+    mod2 = pyrun.exec_module(src2)
+    for all_refs in (True, False):
+        R.count("collision_probe")
+        try:
+            out = deserialization_schema(mod2.Late, all_refs=all_refs)
+            R.violation("two distinct types named 'Same' were merged (the first one being referenced several times)",
+                        dict(source=src2, result=json.loads(json.dumps(out))))
+        except ValueError:
+            pass
+        except Exception as e:
+            R.violation(f"raised {type(e).__name__} instead of refusing the name collision: {e}", dict(source=src2))
+    pyrun.drop_module(mod2)
+    multi_entry_definitions(R)
     out = deserialization_schema(mod.Twice, with_schema=False)
     if set(out.get("$defs", {})) != {"Same"}:
         R.violation("a named type used twice is not extracted under its type_name", dict(source=src, result=json.loads(json.dumps(out))))
     pyrun.drop_module(mod)
+
+
+MULTI_SRC = '''
+from dataclasses import dataclass
+from typing import List
+from apischema.conversions import Conversion
+
+@dataclass
+class Node:
+    id: int
+    children: List["Node"]
+
+@dataclass
+class Leaf:
+    v: int
+
+def node_id(node: Node) -> int:
+    return node.id
+
+node_as_id = Conversion(node_id, source=Node, target=int)
+'''
+
+
+def multi_entry_definitions(R):
+    """definitions_schema with several entries, one of them with a conversion: same definitions as the inline $defs of each
+    entry, closed, independent of the order of the entries"""
+    from typing import List
+    from apischema.json_schema import definitions_schema, serialization_schema
+    mod = pyrun.exec_module(MULTI_SRC)
+    Node, Leaf, conv = mod.Node, mod.Leaf, mod.node_as_id
+    info = dict(source=MULTI_SRC)
+    try:
+        for all_refs in (True, False):
+            R.count("multi_entry_definitions")
+            inline = {}
+            for tp in (Node, List[Leaf]):
+                inline.update(json.loads(json.dumps(serialization_schema(tp, all_refs=all_refs, with_schema=False))).get("$defs", {}))
+            entries = [(List[Node], conv), Node, List[Leaf]]
+            defs = json.loads(json.dumps(definitions_schema(serialization=entries, all_refs=all_refs)))
+            for name, d in inline.items():
+                if defs.get(name) != d:
+                    R.violation(f"definitions_schema lacks / changes the definition {name!r} of the inline $defs (an entry with a "
+                                f"conversion precedes it), all_refs={all_refs}", dict(info, definitions=defs, inline=inline))
+            for path, ref in [r for d in defs.values() for r in all_refs_in(d)]:
+                if ref[len("#/$defs/"):] not in defs:
+                    R.violation(f"definitions_schema: $ref {ref!r} resolves to no definition", dict(info, definitions=defs))
+            swapped = json.loads(json.dumps(definitions_schema(serialization=list(reversed(entries)), all_refs=all_refs)))
+            if swapped != defs:
+                R.violation("definitions_schema depends on the order of its entries", dict(info, definitions=defs, swapped=swapped))
+    except Exception as e:
+        R.violation(f"{type(e).__name__} in the multi-entry definitions probe: {e}", info)
+    finally:
+        pyrun.drop_module(mod)
 
 
 def replay(data):
